@@ -24,17 +24,37 @@ fn jcmp(a: &J, b: &J) -> Ordering {
     match (a, b) {
         (J::Bool(x), J::Bool(y)) => x.cmp(y),
         (J::Int(x), J::Int(y)) => x.cmp(y),
-        (J::Int(x), J::Float(y)) => (*x as f64).partial_cmp(y).unwrap_or(Ordering::Equal),
-        (J::Float(x), J::Int(y)) => x.partial_cmp(&(*y as f64)).unwrap_or(Ordering::Equal),
+        // numbers compare by VALUE: an integer against a double exactly (not through `as f64`)
+        (J::Int(x), J::Float(y)) => int_vs_float(*x, *y),
+        (J::Float(x), J::Int(y)) => int_vs_float(*y, *x).reverse(),
         (J::Float(x), J::Float(y)) => x.partial_cmp(y).unwrap_or(Ordering::Equal),
         (J::Str(x), J::Str(y)) => x.cmp(y),
         _ => rank(a).cmp(&rank(b)),
     }
 }
 
+/// exact order of an integer and a (non-NaN) double, by their mathematical values
+fn int_vs_float(i: i64, f: f64) -> Ordering {
+    if f.is_nan() {
+        return Ordering::Less;
+    }
+    if f >= 9223372036854775808.0 {
+        return Ordering::Less;
+    }
+    if f < -9223372036854775808.0 {
+        return Ordering::Greater;
+    }
+    // |f| < 2^63: floor is exact; compare i with floor(f), then a positive remainder decides
+    let fl = f.floor();
+    match (i as i128).cmp(&(fl as i128)) {
+        Ordering::Equal => if f > fl { Ordering::Less } else { Ordering::Equal },
+        o => o,
+    }
+}
+
 fn is_scalar_in_domain(v: &Value) -> bool {
     match v {
-        Value::Int(i) => i.unsigned_abs() <= 9007199254740992,
+        Value::Int(_) => true, // (was |i| ≤ 2^53 while integers were compared with doubles through f64; exact since /repo 8e2945c)
         Value::Float(f) => !f.0.is_nan(),
         Value::Obj(_) => false,
         _ => true,
